@@ -270,11 +270,6 @@ func (L *Layouts) Backing(elem types.Type) []CompInfo {
 // rootComps returns the component list of a heap root type: for slice types the
 // root is the (unbounded) backing array.
 func (L *Layouts) rootComps(root types.Type) []CompInfo {
-	if s, ok := root.Underlying().(*types.Slice); ok {
-		if _, isStruct := L.structOf(root); !isStruct {
-			return L.Backing(s.Elem())
-		}
-	}
 	return L.Of(root).Comps
 }
 
@@ -355,6 +350,11 @@ func (ex *Exec) havoc(t types.Type, prefix string) (*Value, *Term) {
 	v := &Value{T: t, C: make([]*Term, len(l.Comps))}
 	var facts []*Term
 	for i, c := range l.Comps {
+		if c.Kind == kStrOff && c.Lift == 0 {
+			// a string's bytes are a value of its own: offset 0 without loss of generality
+			v.C[i] = ex.zeroOfSort(c.Sort)
+			continue
+		}
 		v.C[i] = ex.tb.Fresh(prefix+"."+c.Path, c.Sort)
 	}
 	facts = append(facts, ex.typeFacts(v))
